@@ -5,7 +5,7 @@
    each is closed by [exact <lemma>] and followed by Print Assumptions.  `rules`, `env`, the task arithmetic `F` and
    the dependency-order oracle `order` are universally quantified everywhere. *)
 From LLB Require Import Engine.Rules Engine.Spec Engine.Exec Engine.Cancel
-  Engine.CancelProofs Engine.CancelProofs2 Engine.CancelProofs3.
+  Engine.CancelProofs Engine.CancelProofs2 Engine.CancelProofs3 Engine.CancelProofs4.
 From Coq Require Import List NArith Bool Lia Arith.
 Local Open Scope N_scope.
 
@@ -72,3 +72,51 @@ Theorem c05_flags_exact : forall rules env F order n fuel s k s',
   (In (ECreate x) l /\ ~ (exists v, In (EComplete x v) l)).
 Proof. exact flags_exact_iff. Qed.
 Print Assumptions c05_flags_exact.
+
+(* ---------- c05_flagged_reruns ---------- *)
+
+(* In any later traversal (any fuel, any stack, any state): a flagged key that is reached (not on the stack) and not
+   complete in the current epoch is executed - the events `ENeed k Forced None` (`NeverBuilt` if it never built) and
+   `ECreate k` are the first two of the traversal - and if the traversal ends well the key has completed and is no
+   longer flagged. *)
+Theorem c05_flagged_reruns : forall rules env F order fuel stack s k o s',
+  ensure rules env F order fuel stack s k = o -> has_state o s' ->
+  flagged s k = true -> res_builtAt (get (st_mem s) k) <> st_epoch s -> ~ In k stack ->
+  exists l, st_log s' = l ++ ECreate k :: ENeed k (if N.eqb (res_builtAt (get (st_mem s) k)) 0 then NeverBuilt else Forced) None :: st_log s /\
+            (o = Ok s' -> flagged s' k = false /\ exists v, In (EComplete k v) l).
+Proof. exact flagged_reruns. Qed.
+Print Assumptions c05_flagged_reruns.
+
+(* the same inside a build that may itself be cancelled, when the budget is not yet reached on entry *)
+Theorem c05_flagged_reruns_cancellable : forall rules env F order n base fuel stack s k o s',
+  ensure_c rules env F order n base fuel stack s k = o -> has_state o s' -> budget_reached n base s = false ->
+  flagged s k = true -> res_builtAt (get (st_mem s) k) <> st_epoch s -> ~ In k stack ->
+  exists l, st_log s' = l ++ ECreate k :: ENeed k (if N.eqb (res_builtAt (get (st_mem s) k)) 0 then NeverBuilt else Forced) None :: st_log s /\
+            (o = Ok s' -> flagged s' k = false /\ exists v, In (EComplete k v) l).
+Proof. exact flagged_reruns_c. Qed.
+Print Assumptions c05_flagged_reruns_cancellable.
+
+(* No spurious work from cancellation (1): reason Forced is only ever given to keys flagged when the traversal began. *)
+Theorem c05_forced_only_flagged : forall rules env F order fuel stack s k o s' l,
+  ensure rules env F order fuel stack s k = o -> has_state o s' -> st_log s' = l ++ st_log s ->
+  forall x inp, In (ENeed x Forced inp) l -> flagged s x = true.
+Proof. exact forced_only_flagged. Qed.
+Print Assumptions c05_forced_only_flagged.
+
+Theorem c05_forced_only_flagged_cancellable : forall rules env F order n base fuel stack s k o s' l,
+  ensure_c rules env F order n base fuel stack s k = o -> has_state o s' -> st_log s' = l ++ st_log s ->
+  forall x inp, In (ENeed x Forced inp) l -> flagged s x = true.
+Proof. exact forced_only_flagged_c. Qed.
+Print Assumptions c05_forced_only_flagged_cancellable.
+
+(* No spurious work (2): a key that is not flagged, has been built, whose signature is unchanged and whose value is
+   valid is executed only because one of its recorded non-order-only inputs was rebuilt (reason InputRebuilt). *)
+Theorem c05_unflagged_runs_only_for_input : forall rules env F order fuel stack s k o s' l,
+  ensure rules env F order fuel stack s k = o -> has_state o s' -> st_log s' = l ++ st_log s ->
+  flagged s k = false -> res_builtAt (get (st_mem s) k) <> 0 ->
+  r_sig (rules k) = res_sig (get (st_mem s) k) -> valid rules env k (get (st_mem s) k) = true ->
+  In (ECreate k) l ->
+  exists d, In d (drop_single (res_deps (get (st_mem s) k))) /\ d_order d = false /\
+            In (ENeed k InputRebuilt (Some (d_key d))) l.
+Proof. exact unflagged_runs_only_for_input. Qed.
+Print Assumptions c05_unflagged_runs_only_for_input.
